@@ -1,7 +1,7 @@
 check("C17",
   "Kernel-checked theorems (Properties_C17.v, all closed under the global context) about GridModel.v, a statement-by-statement model of splinetable::grideval, bsplinebasis and "
   "slicemultiply in which the n-d sparse array is, as in the code, a list of (index tuple, value) rows with ranges - for EVERY ordered field, every number of dimensions, every order and "
-  "every non-decreasing knot vector: (1) C17_slicemultiply_is_mode_product / _shape: the rotate-flatten-multiply-unflatten of slicemultiply is the mode-dim product for every index tuple "
+  "every non-decreasing knot vector, repeated knots included: (1) C17_slicemultiply_is_mode_product / _shape: the rotate-flatten-multiply-unflatten of slicemultiply is the mode-dim product for every index tuple "
   "(both sides vanish outside the new ranges), built on C17_unflatten_flatten / C17_flatten_unflatten / C17_cols, the mixed-radix round trips of its two index loops for any ndim and dim; "
   "(2) C17_grideval_spec: the returned ranges are the grid lengths, every grid entry equals the sum over ALL coefficients of coefficient x product over dimensions of the right-continuous "
   "Cox-de Boor function at the grid abscissa, the array is 0 outside the ranges, and an entry that is not listed is 0 (and so is the sum there); (3) C17_agrees_pointwise / "
@@ -12,9 +12,12 @@ check("C17",
   "Partial: (a) the rounding gap between the exact-field and binary64 instances of the model is measured (K = 16*sum(order+2) + 2*prod(order+1) ulps of sum|terms|), not proved; CHOLMOD's "
   "summation order is unspecified, so sums are never compared bitwise. (b) Grid points with x_d >= knots_d[naxes_d] (pointwise evaluation is left-continuous there, splineutil's bspline "
   "right-continuous; same continuous function for order >= 1) are covered by the oracle on every run, not by C17_agrees_pointwise; C17_last_knot_differs shows the two conventions differ AT the "
-  "last knot for order 0 (outside the property's domain). (c) Empty grid axes and all-zero coefficient arrays (ndsparse(0,ndim) throws) are outside the theorems. Known finding: tables with a "
-  "repeated knot in a dimension of order >= 1 make grideval return NaN (0/0 in splineutil.c's bspline) - C17:grideval:repeated-knot->NaN; over an ordered field the same term is the Cox-de Boor "
-  "function (C17_bspline_is_cox_de_boor), so the finding lives exactly in the IEEE instance and is caught by the oracle. Trusted: Coq kernel; CHOLMOD modelled by its documented meaning; "
+  "last knot for order 0 (outside the property's domain). (c) Empty grid axes and all-zero coefficient arrays (ndsparse(0,ndim) throws) are outside the theorems. Repaired defect (D23, fix 33ef56f, regression corpus/C17/repeated_knot.json): "
+  "splineutil.c's bspline divided 0/0 on every repeated knot, so grideval returned NaN for such tables; the function now skips a Cox-de Boor term whose denominator vanishes, the model follows "
+  "(GridModel.bspline_guarded) and C17_bspline_is_cox_de_boor states that this recursion IS the right-continuous Cox-de Boor function (0/0 := 0) for every knot sequence, order, index and x - no "
+  "monotonicity, no exclusion; about a quarter of the generated tables carry repeated knots (multiplicities up to order+2), C17_repeated_knot_example is a concrete instance. Grid points where "
+  "pointwise evaluation itself returns NaN (x = knots[naxes] = knots[naxes-1]: finding D17 of C01) are counted and skipped. "
+  "Trusted: Coq kernel; CHOLMOD modelled by its documented meaning; "
   "extraction + OCaml native floats; Python exact-rational transcription of grid_spec (cross-checked against the extracted Qc definitions every run); generator reach.",
   "Coq proof over abstract ordered fields (mixed-radix index bijection, mode products, nested-sum interchange, reuse of the C01 theorem) + differential correspondence (bitwise basis matrices, "
   "exact sparsity pattern, toleranced sums) + exact rational oracle + pointwise-evaluation oracle on the real code", "§4 C17")
